@@ -13,12 +13,12 @@ Local Open Scope N_scope.
 Theorem C07_multi_local_refuted_before_fix_and_fixed :
   forall gbk, exists b,
     parse_file gbk w_multi = PFile b /\ in_fragment b = true /\ pos_clean b = true /\ multi_local_order b = true /\
-    go_diags_fx demo_cfg Scope.no_fixes b [] = [] /\
+    go_diags_fx demo_cfg Scope.no_fixes b [] [] = [] /\
     diag_mem (4, L 1 6 1 7) (spec_diags demo_cfg b []) = true /\
     diag_mem (2, L 1 16 1 17) (spec_diags demo_cfg b []) = true /\
-    diag_mem (4, L 1 6 1 7) (go_diags demo_cfg b []) = true /\
-    diag_mem (2, L 1 16 1 17) (go_diags demo_cfg b []) = true /\
-    length (go_diags demo_cfg b []) = length (spec_diags demo_cfg b []).
+    diag_mem (4, L 1 6 1 7) (go_diags demo_cfg b [] []) = true /\
+    diag_mem (2, L 1 16 1 17) (go_diags demo_cfg b [] []) = true /\
+    length (go_diags demo_cfg b [] []) = length (spec_diags demo_cfg b []).
 Proof. exact multi_local_witness. Qed.
 Print Assumptions C07_multi_local_refuted_before_fix_and_fixed.
 
@@ -30,9 +30,9 @@ Print Assumptions C07_multi_local_refuted_before_fix_and_fixed.
 Theorem C07_local_surplus_refuted_before_fix_and_fixed :
   forall gbk, exists b,
     parse_file gbk w_surplus = PFile b /\ in_fragment b = true /\ pos_clean b = true /\
-    go_diags_fx demo_cfg Scope.before_surplus b [] = [(4, L 1 6 1 7)] /\
+    go_diags_fx demo_cfg Scope.before_surplus b [] [] = [(4, L 1 6 1 7)] /\
     spec_diags demo_cfg b [] = [(2, L 2 19 2 20)] /\
-    go_diags demo_cfg b [] = [(2, L 2 19 2 20)].
+    go_diags demo_cfg b [] [] = [(2, L 2 19 2 20)].
 Proof. exact surplus_witness. Qed.
 Print Assumptions C07_local_surplus_refuted_before_fix_and_fixed.
 
@@ -43,34 +43,43 @@ Theorem C07_pos_filter_refuted :
   forall gbk, exists b,
     parse_file gbk w_pos = PFile b /\ in_fragment b = true /\ multi_local_order b = false /\ pos_clean b = false /\
     spec_diags demo_cfg b [] = [] /\
-    diag_mem (4, L 1 27 1 31) (go_diags demo_cfg b []) = true /\
-    diag_mem (2, L 1 7 1 11) (go_diags demo_cfg b []) = true.
+    diag_mem (4, L 1 27 1 31) (go_diags demo_cfg b [] []) = true /\
+    diag_mem (2, L 1 7 1 11) (go_diags demo_cfg b [] []) = true.
 Proof. exact pos_filter_witness. Qed.
 Print Assumptions C07_pos_filter_refuted.
 
-(* a top-level read of a global that this file defines only later is reported as type 3 even when another file of the
-   workspace defines the global as well (the property: type 3 only when the ONLY definition comes later in the same file) *)
-Theorem C07_later_elsewhere_refuted :
+(* later_elsewhere, FIXED (fixes/C07-later-elsewhere.diff).  A top-level read of a global that this file defines only
+   further down was reported as a load-order error (type 3) even when another file of the workspace defines the global
+   as well (the property: type 3 only when the ONLY definition comes later in the same file): findGlobalVar (third
+   pass) consulted the file's own first-pass table before the workspace.  It now asks the first-pass tables of the
+   OTHER files before it reports (definedInOtherFile).  `print(g)` / `g = 2` with another file defining g: the code
+   before the repair (model variant Scope.before_later_else) reported type 3 at line 1, columns 6-7, the reference
+   demands nothing - and the code now in /repo reports nothing; with no other definition the type 3 stays, as demanded. *)
+Theorem C07_later_elsewhere_refuted_before_fix_and_fixed :
   forall gbk, exists b,
     parse_file gbk w_later = PFile b /\ in_fragment b = true /\ pos_clean b = true /\
     later_elsewhere demo_cfg b [[103]] = true /\
-    go_diags demo_cfg b [[103]; [103]] = [(3, L 1 6 1 7)] /\
-    spec_diags demo_cfg b [[103]] = [].
+    go_diags_fx demo_cfg Scope.before_later_else b [[103]; [103]] [[103]] = [(3, L 1 6 1 7)] /\
+    spec_diags demo_cfg b [[103]] = [] /\
+    go_diags demo_cfg b [[103]; [103]] [[103]] = [] /\
+    go_diags demo_cfg b [[103]] [] = [(3, L 1 6 1 7)] /\ spec_diags demo_cfg b [] = [(3, L 1 6 1 7)].
 Proof. exact later_elsewhere_witness. Qed.
-Print Assumptions C07_later_elsewhere_refuted.
+Print Assumptions C07_later_elsewhere_refuted_before_fix_and_fixed.
 
 (* the guards are satisfiable by a non-trivial program, on which model and reference agree (type 2 for `g`) *)
 Example C07_guard_inhabited :
   forall gbk, exists b,
     parse_file gbk w_ok = PFile b /\ in_fragment b = true /\ pos_clean b = true /\
-    go_diags demo_cfg b [] = [(2, L 4 6 4 7)] /\ spec_diags demo_cfg b [] = [(2, L 4 6 4 7)].
+    go_diags demo_cfg b [] [] = [(2, L 4 6 4 7)] /\ spec_diags demo_cfg b [] = [(2, L 4 6 4 7)].
 Proof. exact guard_witness. Qed.
 
 (* ================================================================== positive theorems (agent traverse-bind)
    Guards (all boolean): in_fragment (the former guard classA_ok = no multi-local order class is GONE since
    fixes/C07-multi-local-order.diff), pos_clean (every look-up of the run saw no
    same-named variable rejected by IsCorrectPosition), flags_ok (reads at the same Loc carry the same idiom flags - true
-   when Locs are distinct), decl_locs_distinct (declaration Locs pairwise distinct), not later_elsewhere. *)
+   when Locs are distinct), decl_locs_distinct (declaration Locs pairwise distinct).  The former guard `not
+   later_elsewhere` is GONE since fixes/C07-later-elsewhere.diff: no class guard is left, the remaining guards are the
+   fragment and the layout of the Locs. *)
 From LH Require Import Proofs.UsageBind Proofs.UsageBindUndef Proofs.UsageBindUnused.
 
 (* the first-pass traversal resolver binds every read and every assigned name exactly like the reference binder *)
@@ -84,9 +93,8 @@ Print Assumptions C07_bindings_agree.
    local and no file / built-in / ignored name defines it; type 3 iff only this file defines it, later, top level) *)
 Theorem C07_undefined_partial : forall c b all others,
   in_fragment b = true -> pos_clean b = true -> flags_ok b = true ->
-  later_elsewhere c b others = false ->
   (forall n, name_mem n all = name_mem n (gnames (s1_gmap (first_pass c b))) || name_mem n others) ->
-  s3_diags (run3 true c (s1_gmap (first_pass c b)) all (trace b))
+  s3_diags (run3 true c (s1_gmap (first_pass c b)) all others (trace b))
   = spec_undefined c others (fun l => loc_mem l (supp_locs b)) (circ_ok b (s1_gmap (first_pass c b))) b.
 Proof. exact usage_undefined_agree. Qed.
 Print Assumptions C07_undefined_partial.
@@ -103,9 +111,9 @@ Print Assumptions C07_unused_partial.
 (* both halves: the diagnostics of the file are, as a set, the diagnostics the property demands *)
 Theorem C07_diags_agree_partial : forall c b all others,
   in_fragment b = true -> pos_clean b = true -> flags_ok b = true ->
-  decl_locs_distinct b = true -> later_elsewhere c b others = false ->
+  decl_locs_distinct b = true ->
   (forall n, name_mem n all = name_mem n (gnames (s1_gmap (first_pass c b))) || name_mem n others) ->
-  forall x, In x (go_diags c b all) <-> In x (spec_diags c b others).
+  forall x, In x (go_diags c b all others) <-> In x (spec_diags c b others).
 Proof. exact usage_diags_agree. Qed.
 Print Assumptions C07_diags_agree_partial.
 
@@ -126,23 +134,23 @@ Theorem C07_laid_distinct : forall W b,
 Proof. exact usage_laid_distinct. Qed.
 Print Assumptions C07_laid_distinct.
 
-(* the diagnostics of the file agree, as a set, with the reference on every Laid chunk of the fragment outside the
-   class later_elsewhere (multi_local_order: repaired): type 2/3 iff the read binds to no local and no file /
+(* the diagnostics of the file agree, as a set, with the reference on EVERY Laid chunk of the fragment (the classes
+   multi_local_order and later_elsewhere are repaired - no class guard is left): type 2/3 iff the read binds to no local and no file /
    built-in / ignored name defines it (3 iff only this file, later, top level); type 4 iff no read binds to the
    declaration and it is not exempt; type 17 for the assignments to such a declaration *)
 Theorem C07_diags_agree_laid_partial : forall W c b all others,
-  in_fragment b = true -> LuaScope.laid_b W b = true -> later_elsewhere c b others = false ->
+  in_fragment b = true -> LuaScope.laid_b W b = true ->
   (forall n, name_mem n all = name_mem n (gnames (s1_gmap (first_pass c b))) || name_mem n others) ->
-  forall x, In x (go_diags c b all) <-> In x (spec_diags c b others).
+  forall x, In x (go_diags c b all others) <-> In x (spec_diags c b others).
 Proof. exact usage_diags_agree_laid_only. Qed.
 Print Assumptions C07_diags_agree_laid_partial.
 
 (* the statement aimed at: the same without the layout hypothesis.  Missing: Laid for the parser's output (C04; it fails
    on the column-restart finding, see C07_pos_filter_refuted, and where an identifier directly follows a bracket) *)
 Definition C07_diags_full : Prop := forall c b all others,
-  in_fragment b = true -> later_elsewhere c b others = false ->
+  in_fragment b = true ->
   (forall n, name_mem n all = name_mem n (gnames (s1_gmap (first_pass c b))) || name_mem n others) ->
-  forall x, In x (go_diags c b all) <-> In x (spec_diags c b others).
+  forall x, In x (go_diags c b all others) <-> In x (spec_diags c b others).
 
 (* non-vacuity: a program with shadowing, loops, closures, the three suppression idioms, a use-before-definition
    (type 3) and undefined names (type 2) satisfies every guard.
@@ -153,10 +161,9 @@ Example C07_positive_guards_inhabited :
   in_fragment b_pos_example = true /\ pos_clean b_pos_example = true /\
   LuaScope.laid_b 1000%Z b_pos_example = true /\
   flags_ok b_pos_example = true /\ decl_locs_distinct b_pos_example = true /\
-  later_elsewhere demo_cfg b_pos_example [] = false /\
   length (file_occs b_pos_example) = 27%nat /\
   map fst (s3_diags (run3 true demo_cfg (s1_gmap (first_pass demo_cfg b_pos_example))
-                          (gnames (s1_gmap (first_pass demo_cfg b_pos_example))) (trace b_pos_example)))
+                          (gnames (s1_gmap (first_pass demo_cfg b_pos_example))) [] (trace b_pos_example)))
   = [2; 2; 3; 2] /\
   map fst (s1_diags (first_pass demo_cfg b_pos_example)) = [4; 4; 17].
 Proof. repeat split; vm_compute; reflexivity. Qed.
